@@ -261,11 +261,13 @@ pub fn catalogue() -> Vec<ARecord> {
         rec("foobar", 1, ARData::Typed { code: 9, fields: vec![Val::Name(n("foo.bar"))] }),
         // the CHAOS-class twin of the first record (same owner, same rdata)
         rec("foobar", 3, a(0x0a000001)),
+        // a CNAME owned by the target of the first SRV record
+        rec("a.b.local", 1, ARData::Typed { code: 5, fields: vec![Val::Name(n("ba.local"))] }),
     ]
 }
 
 const QNAMES: [&str; 12] = ["foobar", "bar.foo", "foo.bar", "foo", "bar", "_my.local", "_mysrv.local", "local", "b.local", "ba.local", "a.b.local", "my.local"];
-const QTYPES: [u16; 10] = [1, 33, 16, 255, 253, 12, 252, 254, 8, 9];
+const QTYPES: [u16; 11] = [1, 33, 16, 255, 253, 12, 252, 254, 8, 9, 5];
 const QCLASSES: [u16; 3] = [1, 3, 255];
 
 fn all_questions() -> Vec<AQuestion> {
@@ -290,7 +292,7 @@ fn enum_hist(t: Tier, shard: usize, nsh: usize, f: &mut dyn FnMut(Hist) -> bool)
         .flat_map(|name| [1u16, 255].into_iter().map(move |qt| AQuestion { name: n(name), qtype: qt, qclass: 1, unicast: true }))
         .collect();
     let mut i = 0usize;
-    for mask in 0u16..(1 << cat.len()) {
+    for mask in 0u32..(1u32 << cat.len()) {
         if mask.count_ones() > maxk {
             continue;
         }
@@ -300,13 +302,13 @@ fn enum_hist(t: Tier, shard: usize, nsh: usize, f: &mut dyn FnMut(Hist) -> bool)
         }
         let ops: Vec<Op> = cat.iter().enumerate().filter(|(k, _)| mask & (1 << k) != 0).map(|(_, r)| Op::AddAuth(r.clone())).collect();
         for (qi, q) in qs.iter().enumerate() {
-            if !f(Hist { ops: ops.clone(), questions: vec![q.clone()], id: mask }) {
+            if !f(Hist { ops: ops.clone(), questions: vec![q.clone()], id: mask as u16 }) {
                 return;
             }
             // pairs: every 7th question gets each second question
             if qi % 7 == (mask as usize % 7) {
                 for s in &q2 {
-                    if !f(Hist { ops: ops.clone(), questions: vec![q.clone(), s.clone()], id: mask ^ 0x5555 }) {
+                    if !f(Hist { ops: ops.clone(), questions: vec![q.clone(), s.clone()], id: mask as u16 ^ 0x5555 }) {
                         return;
                     }
                 }
@@ -334,6 +336,8 @@ fn coll_rdata() -> BoxedStrategy<ARData> {
         1 => (any::<u16>(), coll_name()).prop_map(|(p, t)| ARData::Typed { code: 15, fields: vec![Val::U16(p), Val::Name(t)] }),
         1 => Just(ARData::Unknown { code: 10, data: Bytes(vec![1, 2]) }),
         1 => Just(ARData::Unknown { code: 999, data: Bytes(vec![3]) }),
+        // any other record type (CNAME, NS, HINFO, NSEC, ...), its names drawn from the colliding alphabet
+        3 => select(gen::record_codes()).prop_flat_map(|c| gen::typed_n(c, coll_name())),
     ]
     .boxed()
 }
@@ -355,7 +359,8 @@ pub fn op_strategy() -> BoxedStrategy<Op> {
 }
 
 fn hist_strategy(_t: Tier) -> BoxedStrategy<Hist> {
-    let q = (coll_name(), select(vec![1u16, 28, 33, 16, 12, 7, 15, 10, 255, 253, 254, 252, 251]), select(vec![1u16, 3, 255]), any::<bool>())
+    let qtype = prop_oneof![4 => select(vec![1u16, 28, 33, 16, 12, 7, 15, 10, 255, 253, 254, 252, 251]), 1 => select(gen::record_codes())];
+    let q = (coll_name(), qtype, select(vec![1u16, 3, 255]), any::<bool>())
         .prop_map(|(name, qtype, qclass, unicast)| AQuestion { name, qtype, qclass, unicast });
     (vec(op_strategy(), 0..12), vec((q, any::<u16>()), 0..=2), any::<u16>())
         .prop_map(|(mut ops, questions, id)| {
